@@ -296,8 +296,17 @@ Definition rid_leb (a b : str) : bool :=
 Definition out_rels (src : str) (rs : list lrel) : list rel :=
   map (out_rel src) (sort_by (fun a b => rid_leb (l_id a) (l_id b)) rs).
 
+(** content types the default table lists for an extension, in table order *)
+Definition ext_types (tbl : list (str * str)) (e : str) : list str :=
+  map snd (filter (fun kv => str_eqb (fst kv) e) tbl).
+
+(** ext_content_types == [content_type]: the table maps the extension to exactly this
+    single content type (an extension listed with several types never gets a Default) *)
 Definition in_table (tbl : list (str * str)) (e ct : str) : bool :=
-  existsb (fun kv => str_eqb (fst kv) e && str_eqb (snd kv) ct) tbl.
+  match ext_types tbl e with
+  | [t] => str_eqb t ct
+  | _ => false
+  end.
 
 (** _ContentTypesItem._defaults_and_overrides *)
 Definition cti_step {blob} (E : env blob) (acc : list (str * str) * list (str * str)) (pt : part blob) :=
@@ -498,7 +507,8 @@ Definition ct_in {blob} (E : env blob) (p : phys blob) (x : str) : res str :=
   end.
 
 (** no two reachable parts share an extension (up to case) while carrying different
-    content types that the default table both lists for that extension *)
+    content types that both qualify for a Default.  With the rule of [in_table] (a single
+    type per extension) this holds for every package: see no_default_clash_always *)
 Definition no_default_clash {blob} (E : env blob) (p : phys blob) : Prop :=
   forall x y cx cy, reachable E p x -> reachable E p y -> x <> root -> y <> root ->
     ct_in E p x = Ok cx -> ct_in E p y = Ok cy ->
